@@ -122,7 +122,8 @@ func checkC14(c *Check) {
 		if !ok || (bo.Op != token.NEQ && bo.Op != token.EQL) || !isNilConst(bo.Y) {
 			return
 		}
-		ex, ok := bo.X.(*ssa.Extract)
+		// (in a new helper that is handed the received value: the caller's argument)
+		ex, ok := stripConv(callerValue(bo.X)).(*ssa.Extract)
 		if !ok {
 			return
 		}
@@ -369,7 +370,8 @@ func checkC14(c *Check) {
 	// group a manager is created with is its own (no pointer to a per-loop variable handed to several managers)
 	c.announcesLatestManifest("R4")
 	c.exactGroupNames("R4")
-	c.loopVarAddressEscapes("R4", []string{"provider/cluster"})
+	c.loopVarAddressEscapes("R4", []string{"provider/cluster", "provider/event"})
+	c.leaseKeyCoversID("R6")
 	c.inventoryClientRules("R6")
 	c.cancelBeforeDrain("R3", l.Func("provider/cluster", "deploymentMonitor", "run"))
 	// the manager's exit waits for the withdrawal worker: a withdrawal that waits for an in-flight broadcast before
@@ -563,7 +565,7 @@ func (c *Check) hostnameNormalisation() {
 		c.Analysed(fnName(fn))
 		ok, seen := true, 0
 		detail := ""
-		eachInstr(fn, func(i ssa.Instruction) {
+		eachInstrDeep(fn, func(i ssa.Instruction) {
 			var key ssa.Value
 			switch x := i.(type) {
 			case *ssa.MapUpdate:
@@ -581,7 +583,7 @@ func (c *Check) hostnameNormalisation() {
 				return
 			}
 			seen++
-			ks := Sym(key)
+			ks := strings.Replace(symInCaller(key), "**p:", "*p:", 1)
 			if !(strings.HasPrefix(ks, "*p:hostnames[") || strings.HasPrefix(ks, "*p:rr.hostnames[")) {
 				ok = false
 				detail = "in-use map addressed by " + short(ks)
@@ -596,7 +598,7 @@ func (c *Check) hostnameNormalisation() {
 		fn := l.Func("provider/cluster", "hostnameService", "doRequest")
 		var updates []ssa.Instruction
 		var refusals []ssa.Instruction
-		eachInstr(fn, func(i ssa.Instruction) {
+		eachInstrDeep(fn, func(i ssa.Instruction) {
 			switch x := i.(type) {
 			case *ssa.MapUpdate:
 				updates = append(updates, x)
@@ -606,6 +608,13 @@ func (c *Check) hostnameNormalisation() {
 				}
 			}
 		})
+		// (a store or a reply that now sits in a new helper stands at the helper's call in doRequest)
+		lift := func(in ssa.Instruction) ssa.Instruction {
+			if li := liftTo(fn, in); li != nil {
+				return li
+			}
+			return in
+		}
 		ok := len(updates) > 0 && len(refusals) > 0
 		why := "doRequest has no recording store or no refusing reply"
 		for _, u := range updates {
@@ -613,7 +622,7 @@ func (c *Check) hostnameNormalisation() {
 				// the value sent is known to be nil wherever the recording store executes: not a refusal
 				knownNil := false
 				sv := r.(*ssa.Send).X
-				for _, a := range factsAt(u.Block()) {
+				for _, a := range append(factsAt(u.Block()), factsAt(lift(u).Block())...) {
 					if a.Op == "eq" && a.Y != nil && isNilConst(a.Y) && (a.X == sv || Sym(a.X) == Sym(sv)) {
 						knownNil = true
 					}
@@ -621,7 +630,7 @@ func (c *Check) hostnameNormalisation() {
 				if knownNil {
 					continue
 				}
-				if reachableFrom(u, r) {
+				if lu, lr := lift(u), lift(r); lu.Parent() == lr.Parent() && lu != lr && reachableFrom(lu, lr) || (lu == lr && reachableFrom(u, r)) {
 					ok = false
 					why = "a refusal at " + l.Pos(r.Pos()) + " can follow the recording of an earlier name of the same request: those names stay taken although the request failed and nobody will release them"
 				}
@@ -683,4 +692,26 @@ func (c *Check) serviceClientSends(rule string) {
 	if n < 3 {
 		c.Info(rule, "hostname service: fewer request hand-overs than on the pinned tree, not decided", token.NoPos, itoa(n)+" found")
 	}
+}
+
+// leaseKeyCoversID: the cluster service files each lease's deployment manager under query.LeasePath(lease id) and
+// routes manifests, updates and lease-closed events by that key. The key must name all five fields of the lease id:
+// with one left out, the manifest of a new lease of the same group is handed to the (tearing down) manager of the
+// previous one and never deployed, and closing one lease tears down the other.
+func (c *Check) leaseKeyCoversID(rule string) {
+	l := c.L
+	fn := l.Func("x/market/query", "", "LeasePath")
+	c.Analysed(fnName(fn))
+	tpl, ok := canonString(fn, 0)
+	if !ok {
+		c.Info(rule, "query.LeasePath: form not recognised, field coverage of the manager key not decided", fn.Pos(), "")
+		return
+	}
+	miss := ""
+	for _, f := range []string{"Owner", "DSeq", "GSeq", "OSeq", "Provider"} {
+		if strings.Count(tpl, "<"+f+">") != 1 {
+			miss += f + " "
+		}
+	}
+	c.Ob(rule, "the key a lease's manager is filed under names owner, dseq, gseq, oseq and provider", fn.Pos(), miss == "", "query.LeasePath renders "+tpl+" (problem with: "+miss+"): leases that differ only there share one deployment manager")
 }
